@@ -367,6 +367,9 @@ class BufrMessage(object):
         if min(subset_indices) < 0:
             raise PyBufrKitError('minimum subset index out of range')
 
+        # A subset is selected at most once no matter how often its index is given
+        n_subsets = len(set(subset_indices))
+
         data = []
         for section in self.sections:
             section_data = []
@@ -378,7 +381,7 @@ class BufrMessage(object):
                     )
                 else:
                     section_data.append(
-                        len(subset_indices) if parameter.name == 'n_subsets'
+                        n_subsets if parameter.name == 'n_subsets'
                         else parameter.value
                     )
             data.append(section_data)
